@@ -370,6 +370,15 @@ func c15free(b *c15Built, ignore []int, mode string, rng *rand.Rand) (o c15Obs) 
 			}
 		}
 		sink.record(parent, kids)
+		if mode == "appender" && parent != nil {
+			// what the CAR splitter does with a delivered group: family := append(children, *parent) - a write into the
+			// spare capacity of the delivered slice, which therefore must not be shared with the reader any more
+			fam := append(kids, *parent)
+			_ = fam
+			if drng.Intn(2) == 0 {
+				time.Sleep(50 * time.Microsecond) // let the reader run ahead
+			}
+		}
 		return nil
 	}
 	acc := NewObjectAccumulator(cr, iplddecoders.KindBlock, cb, c15ignoreKinds(ignore)...)
@@ -489,7 +498,7 @@ func TestVerifC15Free(t *testing.T) {
 		}
 		ignore := c15ignoreSets[rng.Intn(len(c15ignoreSets))]
 		b := c15build(c15concrete(secs, rng), ignore, rng)
-		for mi, mode := range []string{"instant", "slow", "random", "bulkread"} {
+		for mi, mode := range []string{"instant", "slow", "random", "bulkread", "appender"} {
 			if len(secs) > 4000 && mode == "slow" {
 				continue
 			}
